@@ -500,3 +500,79 @@ func vType(k int) (*MessageInfo, pointer) {
 }
 
 const vNumTypes = 7
+
+// ---- VCycA / VCycB: mutually recursive messages with a required field below the cycle ----
+//
+//	message CycA { optional CycB b = 1; optional Req r = 2; }   message CycB { optional CycA a = 1; }
+
+type VCycA struct {
+	state         MessageState
+	sizeCache     SizeCache
+	unknownFields UnknownFields
+	B             *VCycB
+	R             *VReq
+}
+
+type VCycB struct {
+	state         MessageState
+	sizeCache     SizeCache
+	unknownFields UnknownFields
+	A             *VCycA
+}
+
+var vmiCycA, vmiCycB *MessageInfo
+var vmdCycA, vmdCycB *vMD
+
+func vCycDescs() {
+	if vmdCycA != nil {
+		return
+	}
+	vMI_Req()
+	vmdCycA = vmd("v.CycA", protoreflect.Proto2)
+	vmdCycB = vmd("v.CycB", protoreflect.Proto2)
+	vmdCycA.fields.list = []*vFD{
+		vfd("b", 1, protoreflect.MessageKind, opt, false, true, vmdCycB),
+		vfd("r", 2, protoreflect.MessageKind, opt, false, true, vmdReq),
+	}
+	vmdCycB.fields.list = []*vFD{vfd("a", 1, protoreflect.MessageKind, opt, false, true, vmdCycA)}
+	for _, f := range vmdCycA.fields.list {
+		f.parent = vmdCycA
+	}
+	for _, f := range vmdCycB.fields.list {
+		f.parent = vmdCycB
+	}
+}
+
+func (*VCycA) ProtoReflect() protoreflect.Message { return vRefl{mi: vMI_CycA()} }
+func (*VCycB) ProtoReflect() protoreflect.Message { return vRefl{mi: vMI_CycB()} }
+
+func vMI_CycA() *MessageInfo {
+	if vmiCycA != nil {
+		return vmiCycA
+	}
+	vmiCycA = &MessageInfo{}
+	vCycDescs()
+	var x VCycA
+	si := vsi()
+	si.sizecacheOffset, si.sizecacheType = offsetOfU(unsafe.Offsetof(x.sizeCache)), reflect.TypeOf(x.sizeCache)
+	si.unknownOffset, si.unknownType = offsetOfU(unsafe.Offsetof(x.unknownFields)), reflect.TypeOf(x.unknownFields)
+	si.fieldsByNumber[1] = vsf(reflect.TypeOf(x.B), unsafe.Offsetof(x.B))
+	si.fieldsByNumber[2] = vsf(reflect.TypeOf(x.R), unsafe.Offsetof(x.R))
+	vfinish(vmiCycA, vmdCycA, reflect.TypeOf(&x), si)
+	return vmiCycA
+}
+
+func vMI_CycB() *MessageInfo {
+	if vmiCycB != nil {
+		return vmiCycB
+	}
+	vmiCycB = &MessageInfo{}
+	vCycDescs()
+	var x VCycB
+	si := vsi()
+	si.sizecacheOffset, si.sizecacheType = offsetOfU(unsafe.Offsetof(x.sizeCache)), reflect.TypeOf(x.sizeCache)
+	si.unknownOffset, si.unknownType = offsetOfU(unsafe.Offsetof(x.unknownFields)), reflect.TypeOf(x.unknownFields)
+	si.fieldsByNumber[1] = vsf(reflect.TypeOf(x.A), unsafe.Offsetof(x.A))
+	vfinish(vmiCycB, vmdCycB, reflect.TypeOf(&x), si)
+	return vmiCycB
+}
